@@ -1,1 +1,377 @@
-(* stub: to be written by group Questrade *)
+(* C20 (text layer): src/peripheral/questrade_statement_fmv_impl.rs
+     the three line regexes (lines 42-55) as hand-written matchers,
+     FmvParseSm (lines 57-212), parse_fmvs_from_page, parse_statement_text
+     (lines 248-303).
+   Text is a list of Unicode scalar values; see Model/QText.v for the
+   character classes and what is not modelled (non-ASCII decimal digits in
+   \d, non-ASCII case mapping).  Definitions only. *)
+From Coq Require Import List NArith ZArith QArith Qcanon Bool.
+From ACB Require Import Base.Outcome Base.QcExtra Base.Fit Model.QText.
+Import ListNotations.
+Local Open Scope N_scope.
+
+Module FErr.
+  Definition no_total : N := 201.     (* "No header or allocation total line found" *)
+  Definition no_data : N := 202.      (* "Unable to parse allocation and FMV from ..." *)
+  Definition bad_alloc : N := 203.    (* "Unable to parse allocation from ..." *)
+  Definition bad_fmv : N := 204.      (* "Unable to parse FMV from ..." *)
+  Definition no_month : N := 205.     (* "Could not find month" *)
+  Definition no_fmvs : N := 206.      (* "Did not find FMVs in statement" *)
+  Definition bad_year : N := 207.     (* year.parse::<i32>() failed *)
+  Definition bad_day : N := 208.      (* day.parse::<u8>() failed *)
+  Definition bad_date : N := 209.     (* Date::from_calendar_date failed *)
+End FErr.
+
+(* ---- str::lines ---- *)
+(* split_inclusive('\n'); a line that ended in '\n' loses it and then one
+   trailing '\r'; a final piece without '\n' is kept as it is *)
+Definition strip_cr_rev (racc : text) : text :=
+  match racc with
+  | 13 :: a => rev a
+  | _ => rev racc
+  end.
+
+Fixpoint lines_aux (racc : text) (s : text) : list text :=
+  match s with
+  | [] => match racc with [] => [] | _ => [rev racc] end
+  | c :: r => if c =? 10 then strip_cr_rev racc :: lines_aux [] r else lines_aux (c :: racc) r
+  end.
+Definition lines (s : text) : list text := lines_aux [] s.
+
+(* ---- TOTAL_ROW_RE  ^\s*100.00?\s+(\d[0-9,\.]+)\s*$ ---- *)
+Definition is_num_char (c : N) : bool := is_digit c || is_dot c || is_comma c.
+Definition is_numdot_char (c : N) : bool := is_digit c || is_dot c.
+
+(* \d[0-9,\.]+ *)
+Definition total_tok_ok (t : text) : bool :=
+  match t with
+  | c :: (_ :: _) as r => is_digit c && forallb is_num_char r
+  | _ => false
+  end.
+
+Definition match_total (line : text) : option text :=
+  match skip_spaces line with
+  | 49 :: 48 :: 48 :: c :: 48 :: r =>
+      if c =? 10 then None else
+      let r1 := match r with 48 :: r' => r' | _ => r end in
+      match r1 with
+      | sp :: _ =>
+          if is_space sp then
+            let '(tok, rest) := span_nonspace (skip_spaces r1) in
+            if total_tok_ok tok && is_blank rest then Some tok else None
+          else None
+      | [] => None
+      end
+  | _ => None
+  end.
+
+(* ---- SEC_FIRST_ROW_RE:  ^ \s* <U+25A0> \s* ( \S . * ) \s* $  ---- *)
+Fixpoint span_no_nl (s : text) : text * text :=
+  match s with
+  | c :: r => if c =? 10 then ([], s) else let '(t, rest) := span_no_nl r in (c :: t, rest)
+  | [] => ([], [])
+  end.
+
+Definition match_first_row (line : text) : option text :=
+  match skip_spaces line with
+  | c :: r =>
+      if c =? c_bullet then
+        match skip_spaces r with
+        | [] => None
+        | body =>
+            let '(cap, rest) := span_no_nl body in
+            if is_blank rest then Some cap else None
+        end
+      else None
+  | [] => None
+  end.
+
+(* ---- SEC_DATA_RE
+   ^ \s* (?P<desc> \S ( . * \S )? ) \s+ (?P<alloc> \d [0-9\.]+ ) \s+ (?P<fmv> \d [0-9,\.] * ) \s* $ ---- *)
+Definition alloc_tok_ok (t : text) : bool :=
+  match t with
+  | c :: (_ :: _) as r => is_digit c && forallb is_numdot_char r
+  | _ => false
+  end.
+Definition fmv_tok_ok (t : text) : bool :=
+  match t with
+  | c :: r => is_digit c && forallb is_num_char r
+  | [] => false
+  end.
+
+Definition starts_with_space (s : text) : bool :=
+  match s with c :: _ => is_space c | [] => false end.
+
+(* the matcher works from the end of the text: fmv and alloc are the last two
+   whitespace-delimited tokens, desc is what precedes them, trimmed *)
+Definition match_data (s : text) : option (text * text * text) :=
+  let r1 := skip_spaces (rev s) in
+  let '(fmv_r, r2) := span_nonspace r1 in
+  if negb (fmv_tok_ok (rev fmv_r)) then None else
+  if negb (starts_with_space r2) then None else
+  let '(alloc_r, r4) := span_nonspace (skip_spaces r2) in
+  if negb (alloc_tok_ok (rev alloc_r)) then None else
+  if negb (starts_with_space r4) then None else
+  let desc := skip_spaces (rev (skip_spaces r4)) in
+  match desc with
+  | [] => None
+  | _ => if existsb (N.eqb 10) desc then None else Some (desc, rev alloc_r, rev fmv_r)
+  end.
+
+(* ---- numbers ---- *)
+Definition parse_alloc (t : text) : res Qc :=
+  if plain_num_ok t then Ok (plain_num_value t) else Rej (RejOther FErr.bad_alloc).
+Definition parse_large (t : text) : res Qc :=
+  let s := strip_commas t in
+  if plain_num_ok s then Ok (plain_num_value s) else Rej (RejOther FErr.bad_fmv).
+
+(* ---- FmvParseSm ---- *)
+Record fmv := { f_desc : text; f_alloc : Qc; f_fmv : Qc }.
+
+Definition security_text_to_fmv (s : text) : res fmv :=
+  match match_data s with
+  | Some (desc, alloc, fm) =>
+      a <- parse_alloc alloc ;;
+      f <- parse_large fm ;;
+      Ok {| f_desc := desc; f_alloc := a; f_fmv := f |}
+  | None => Rej (RejOther FErr.no_data)
+  end.
+
+Inductive sm_state := LookHeader | LookFirst | Gather.
+Record sm := { sm_fmvs : list fmv; sm_state_of : sm_state; sm_desc : text }.
+
+Definition sm_init : sm := {| sm_fmvs := []; sm_state_of := LookHeader; sm_desc := [] |}.
+
+Definition finalize (m : sm) : res sm :=
+  f <- security_text_to_fmv (sm_desc m) ;;
+  Ok {| sm_fmvs := sm_fmvs m ++ [f]; sm_state_of := sm_state_of m; sm_desc := sm_desc m |}.
+
+Definition gather_security_line (m : sm) (line : text) : res sm :=
+  match match_first_row line with
+  | Some cap =>
+      m1 <- (match sm_desc m with [] => Ok m | _ => finalize m end) ;;
+      Ok {| sm_fmvs := sm_fmvs m1; sm_state_of := sm_state_of m1; sm_desc := cap |}
+  | None =>
+      if is_blank line then Ok m
+      else Ok {| sm_fmvs := sm_fmvs m; sm_state_of := sm_state_of m;
+                 sm_desc := sm_desc m ++ 32 :: trim line |}
+  end.
+
+(* gather_total_line: the caller has matched TOTAL_ROW_RE *)
+Definition gather_total_line (line : text) : res Qc :=
+  match match_total line with
+  | Some tok => parse_large tok
+  | None => Panic (PanicMissing 310)   (* captures(line).unwrap(): unreachable *)
+  end.
+
+Inductive step_res :=
+| Cont (m : sm)
+| Done (fmvs : list fmv) (total : Qc)
+| Stop (r : res (list fmv * Qc)).   (* an error *)
+
+Definition with_state (m : sm) (s : sm_state) : sm :=
+  {| sm_fmvs := sm_fmvs m; sm_state_of := s; sm_desc := sm_desc m |}.
+
+Definition lift {A} (r : res A) (k : A -> step_res) : step_res :=
+  match r with
+  | Ok a => k a
+  | Rej e => Stop (Rej e)
+  | Panic p => Stop (Panic p)
+  end.
+
+Definition is_total (line : text) : bool :=
+  match match_total line with Some _ => true | None => false end.
+
+(* one non-blank line *)
+Definition step (m : sm) (line : text) : step_res :=
+  match sm_state_of m with
+  | LookHeader =>
+      if contains t_ALLOCATION line then Cont (with_state m LookFirst) else Cont m
+  | LookFirst =>
+      if existsb (N.eqb c_bullet) line then
+        lift (gather_security_line (with_state m Gather) line) Cont
+      else if is_total line then
+        lift (gather_total_line line) (fun t => Done (sm_fmvs m) t)
+      else Cont m
+  | Gather =>
+      if is_total line then
+        match finalize m with
+        | Ok m1 => lift (gather_total_line line) (fun t => Done (sm_fmvs m1) t)
+        | _ => lift (gather_security_line m line) Cont
+        end
+      else lift (gather_security_line m line) Cont
+  end.
+
+Fixpoint run_lines (m : sm) (ls : list text) : res (list fmv * Qc) :=
+  match ls with
+  | [] => Rej (RejOther FErr.no_total)
+  | l :: r =>
+      if is_blank l then run_lines m r
+      else match step m l with
+           | Cont m' => run_lines m' r
+           | Done f t => Ok (f, t)
+           | Stop e => e
+           end
+  end.
+
+Definition parse_page (page : text) : res (list fmv * Qc) := run_lines sm_init (lines page).
+
+(* ---- parse_statement_text ---- *)
+(* Securities\s+Owned\s+Combined\s+in\s+\(CAD\) *)
+Definition t_Securities : text := [83; 101; 99; 117; 114; 105; 116; 105; 101; 115].
+Definition t_Owned : text := [79; 119; 110; 101; 100].
+Definition t_Combined : text := [67; 111; 109; 98; 105; 110; 101; 100].
+Definition t_in : text := [105; 110].
+Definition t_CAD_paren : text := [40; 67; 65; 68; 41].
+
+(* literal followed by \s+ *)
+Definition lit_then_spaces (litr : text) (s : text) : option text :=
+  match strip_prefix litr s with
+  | Some r => if starts_with_space r then Some (skip_spaces r) else None
+  | None => None
+  end.
+
+Definition marker_at (s : text) : bool :=
+  match lit_then_spaces t_Securities s with
+  | Some r1 =>
+      match lit_then_spaces t_Owned r1 with
+      | Some r2 =>
+          match lit_then_spaces t_Combined r2 with
+          | Some r3 =>
+              match lit_then_spaces t_in r3 with
+              | Some r4 => starts_with t_CAD_paren r4
+              | None => false
+              end
+          | None => false
+          end
+      | None => false
+      end
+  | None => false
+  end.
+
+Fixpoint has_marker (s : text) : bool :=
+  marker_at s || match s with [] => false | _ :: r => has_marker r end.
+
+(* (?i)\bCurrent month:\s+(?P<month>\S+) (?P<day>\d+), (?P<year>\d+) *)
+Definition t_current_month : text :=   (* lower case *)
+  [99; 117; 114; 114; 101; 110; 116; 32; 109; 111; 110; 116; 104; 58].
+
+(* \w restricted to what is modelled: ASCII letters, digits, '_' and the
+   Latin-1 letters *)
+Definition is_word (c : N) : bool :=
+  is_digit c || ((65 <=? c) && (c <=? 90)) || ((97 <=? c) && (c <=? 122)) || (c =? 95)
+  || (c =? 170) || (c =? 181) || (c =? 186)
+  || ((192 <=? c) && (c <=? 214)) || ((216 <=? c) && (c <=? 246)) || ((248 <=? c) && (c <=? 255)).
+
+Fixpoint strip_prefix_ci (p s : text) : option text :=
+  match p, s with
+  | [], _ => Some s
+  | x :: p', y :: s' => if x =? lower_c y then strip_prefix_ci p' s' else None
+  | _ :: _, [] => None
+  end.
+
+(* match starting exactly at s (the word boundary is checked by the caller) *)
+Definition month_at (s : text) : option (text * text * text) :=
+  match strip_prefix_ci t_current_month s with
+  | Some r =>
+      if starts_with_space r then
+        let '(month, r1) := span_nonspace (skip_spaces r) in
+        match r1 with
+        | 32 :: r2 =>
+            let '(day, r3) := span_digits r2 in
+            match day, r3 with
+            | _ :: _, 44 :: 32 :: r4 =>
+                let '(year, _) := span_digits r4 in
+                match year with
+                | _ :: _ => Some (month, day, year)
+                | [] => None
+                end
+            | _, _ => None
+            end
+        | _ => None
+        end
+      else None
+  | None => None
+  end.
+
+(* leftmost match; [prev_word] = the previous character is a word character *)
+Fixpoint find_month_aux (prev_word : bool) (s : text) : option (text * text * text) :=
+  match (if prev_word then None else month_at s) with
+  | Some m => Some m
+  | None =>
+      match s with
+      | [] => None
+      | c :: r => find_month_aux (is_word c) r
+      end
+  end.
+Definition find_month (page : text) : option (text * text * text) := find_month_aux false page.
+
+Definition t3 (a b c : N) : text := [a; b; c].
+Definition parse_month (m : text) : option N :=
+  let t := trim (lower m) in
+  if starts_with (t3 106 97 110) t then Some 1
+  else if starts_with (t3 102 101 98) t then Some 2
+  else if starts_with (t3 109 97 114) t then Some 3
+  else if starts_with (t3 97 112 114) t then Some 4
+  else if starts_with (t3 109 97 121) t then Some 5
+  else if starts_with (t3 106 117 110) t then Some 6
+  else if starts_with (t3 106 117 108) t then Some 7
+  else if starts_with (t3 97 117 103) t then Some 8
+  else if starts_with (t3 115 101 112) t then Some 9
+  else if starts_with (t3 111 99 116) t then Some 10
+  else if starts_with (t3 110 111 118) t then Some 11
+  else if starts_with (t3 100 101 99) t then Some 12
+  else None.
+
+Definition is_leap (y : N) : bool :=
+  ((y mod 4 =? 0) && negb (y mod 100 =? 0)) || (y mod 400 =? 0).
+Definition days_in_month (y m : N) : N :=
+  match m with
+  | 2 => if is_leap y then 29 else 28
+  | 4 | 6 | 9 | 11 => 30
+  | _ => 31
+  end.
+
+(* Date::from_calendar_date (time crate without large-dates: |year| <= 9999) *)
+Definition valid_date (y m d : N) : bool :=
+  (y <=? 9999) && (1 <=? m) && (m <=? 12) && (1 <=? d) && (d <=? days_in_month y m).
+
+Definition date3 := (N * N * N)%type.
+
+Definition month_date_of (page : text) : res (option date3) :=
+  match find_month page with
+  | Some (mt, dt, yt) =>
+      match parse_month mt with
+      | Some m =>
+          let y := digits_value yt in
+          let d := digits_value dt in
+          if 2147483647 <? y then Rej (RejOther FErr.bad_year)
+          else if 255 <? d then Rej (RejOther FErr.bad_day)
+          else if valid_date y m d then Ok (Some (y, m, d))
+          else Rej (RejOther FErr.bad_date)
+      | None => Ok None
+      end
+  | None => Ok None
+  end.
+
+Record statement := { st_month : date3; st_fmvs : list fmv; st_total : Qc }.
+
+Fixpoint parse_statement_aux (month : option date3) (pages : list text) : res statement :=
+  match pages with
+  | [] => Rej (RejOther FErr.no_fmvs)
+  | p :: r =>
+      month' <- (match month with
+                 | Some _ => Ok month
+                 | None => month_date_of p
+                 end) ;;
+      if has_marker p then
+        '(fmvs, total) <- parse_page p ;;
+        match month' with
+        | Some md => Ok {| st_month := md; st_fmvs := fmvs; st_total := total |}
+        | None => Rej (RejOther FErr.no_month)
+        end
+      else parse_statement_aux month' r
+  end.
+
+Definition parse_statement_text (pages : list text) : res statement :=
+  parse_statement_aux None pages.
